@@ -32,6 +32,13 @@ fn component_toml(id: &str) -> String {
 fn write_workspace(root: &Path, deps: &BTreeMap<String, Vec<String>>, extra_dep: Option<(&str, &str)>) {
     for (i, (n, ds)) in deps.iter().enumerate() {
         let dir = root.join(if i % 2 == 0 { format!("buildpacks/{n}") } else { format!("nested/deeper/{n}") });
+        if i % 3 == 2 {
+            // this buildpack lives outside the workspace tree and is linked into it: a directory all the same
+            let real = root.parent().unwrap().join("shared").join(n);
+            fs::create_dir_all(&real).unwrap();
+            fs::create_dir_all(dir.parent().unwrap()).unwrap();
+            std::os::unix::fs::symlink(&real, &dir).unwrap();
+        }
         fs::create_dir_all(&dir).unwrap();
         let mut ds: Vec<String> = ds.iter().map(|d| format!("libcnb:{}", bp_id(d))).collect();
         if let Some((who, what)) = extra_dep {
@@ -87,8 +94,8 @@ fn graph_mode(raw: &[Value], trace: &Path, scratch: &Path) -> Summary {
         let tmp = tempfile::tempdir_in(scratch).unwrap();
         let mut events = vec![];
         let mut bad: Vec<Mismatch> = vec![];
-        write_workspace(tmp.path(), &deps, None);
-        match build_libcnb_buildpacks_dependency_graph(tmp.path()) {
+        write_workspace(&tmp.path().join("ws"), &deps, None);
+        match build_libcnb_buildpacks_dependency_graph(&tmp.path().join("ws")) {
             Err(e) => bad.push(Mismatch { signature: "graph construction failed".into(), detail: format!("{e}"), case: v.clone() }),
             Ok(graph) => {
                 let ids: BTreeSet<String> = graph.node_weights().map(|n| n.buildpack_id.to_string()).collect();
@@ -121,8 +128,8 @@ fn graph_mode(raw: &[Value], trace: &Path, scratch: &Path) -> Summary {
         for (k, what) in ["verif/zz-unknown", "verif/shell-bp", "verif/not_an_id", "app"].iter().enumerate() {
             let tmp2 = tempfile::tempdir_in(scratch).unwrap();
             let who = &nodes[(i + k) % nodes.len()];
-            write_workspace(tmp2.path(), &deps, Some((who, what)));
-            let ok = build_libcnb_buildpacks_dependency_graph(tmp2.path()).is_ok();
+            write_workspace(&tmp2.path().join("ws"), &deps, Some((who, what)));
+            let ok = build_libcnb_buildpacks_dependency_graph(&tmp2.path().join("ws")).is_ok();
             events.push(json!({"kind": "dangling", "deps": deps, "who": who, "what": what, "ok": ok}));
         }
         (events, bad)
@@ -143,10 +150,10 @@ fn graph_mode(raw: &[Value], trace: &Path, scratch: &Path) -> Summary {
             deps.insert(name(order[a]), d);
         }
         let tmp = tempfile::tempdir_in(scratch).unwrap();
-        write_workspace(tmp.path(), &deps, None);
+        write_workspace(&tmp.path().join("ws"), &deps, None);
         let mut events = vec![];
         let mut bad: Vec<Mismatch> = vec![];
-        match build_libcnb_buildpacks_dependency_graph(tmp.path()) {
+        match build_libcnb_buildpacks_dependency_graph(&tmp.path().join("ws")) {
             Err(e) => bad.push(Mismatch { signature: "graph construction failed".into(), detail: format!("{e}"), case: json!({"deps": deps}) }),
             Ok(graph) => {
                 let nodes: Vec<String> = deps.keys().cloned().collect();
